@@ -3,10 +3,12 @@
 (* C20: emulator instances, their listening port and their connections.     *)
 (*                                                                         *)
 (*   inst[i]  \in {"new", "running", "closed"}                              *)
-(*   port     : which instance listens on the (one) port, 0 = free          *)
+(*   port[p]  : which instance listens on port slot p, 0 = free             *)
 (*   conn[c]  : [of |-> instance, act |-> activity, open |-> BOOLEAN]       *)
 (*   data[i]  : set of keys stored in instance i                            *)
-(* Actions: Start(i), Connect(c, i, activity), Write(c), Close(i).          *)
+(* Actions: Start(i, p), Connect(c, p, activity), Close(i), Quit(i) - the    *)
+(* quit channel given to NewEmulator is signalled and WaitForTermination is  *)
+(* awaited: same obligations as Close.                                       *)
 (* Close(i) = RequestTermination + WaitForTermination: it returns (it is a  *)
 (* single step here - the bounded-time obligation is checked on the real    *)
 (* code with a watchdog), closes every connection of i whatever it is doing *)
@@ -16,45 +18,50 @@
 (* public API in a child process.                                           *)
 (***************************************************************************)
 EXTENDS Integers, Sequences, FiniteSets, TLC, Json
-CONSTANTS Insts, Conns, Acts, MaxSteps
+CONSTANTS Insts, Conns, Acts, MaxSteps, Ports
 VARIABLES inst, port, conn, data, trace
 lvars == <<inst, port, conn, data, trace>>
 
 NoConn == [of |-> 0, act |-> "none", open |-> FALSE]
 LInit == /\ inst = [i \in Insts |-> "new"]
-         /\ port = 0
+         /\ port = [p \in Ports |-> 0]
          /\ conn = [c \in Conns |-> NoConn]
          /\ data = [i \in Insts |-> {}]
          /\ trace = <<>>
 
-Start(i) == /\ inst[i] = "new" /\ port = 0
-            /\ inst' = [inst EXCEPT ![i] = "running"]
-            /\ port' = i
-            /\ trace' = Append(trace, [a |-> "start", i |-> i])
-            /\ UNCHANGED <<conn, data>>
-Connect(c, a) == /\ port # 0 /\ conn[c] = NoConn
-                 /\ conn' = [conn EXCEPT ![c] = [of |-> port, act |-> a, open |-> TRUE]]
-                 /\ data' = [data EXCEPT ![port] = @ \cup {c}]            \* every client stores a key of its own first
-                 /\ trace' = Append(trace, [a |-> "connect", c |-> c, act |-> a])
-                 /\ UNCHANGED <<inst, port>>
-Close(i) == /\ inst[i] = "running"
-            /\ inst' = [inst EXCEPT ![i] = "closed"]
-            /\ port' = IF port = i THEN 0 ELSE port
-            /\ conn' = [c \in Conns |-> IF conn[c].of = i THEN [conn[c] EXCEPT !.open = FALSE] ELSE conn[c]]
-            /\ trace' = Append(trace, [a |-> "close", i |-> i])
-            /\ UNCHANGED data
+Start(i, p) == /\ inst[i] = "new" /\ port[p] = 0
+               /\ inst' = [inst EXCEPT ![i] = "running"]
+               /\ port' = [port EXCEPT ![p] = i]
+               /\ trace' = Append(trace, [a |-> "start", i |-> i, p |-> p])
+               /\ UNCHANGED <<conn, data>>
+Connect(c, a, p) == /\ port[p] # 0 /\ conn[c] = NoConn
+                    /\ conn' = [conn EXCEPT ![c] = [of |-> port[p], act |-> a, open |-> TRUE]]
+                    /\ data' = [data EXCEPT ![port[p]] = @ \cup {c}]            \* every client stores a key of its own first
+                    /\ trace' = Append(trace, [a |-> "connect", c |-> c, act |-> a, p |-> p])
+                    /\ UNCHANGED <<inst, port>>
+\* how: "close" (Close()) or "quit" (the quit channel, then WaitForTermination)
+Stop(i, how) == /\ inst[i] = "running"
+                /\ inst' = [inst EXCEPT ![i] = "closed"]
+                /\ port' = [p \in Ports |-> IF port[p] = i THEN 0 ELSE port[p]]
+                \* only the connections of THIS instance are affected
+                /\ conn' = [c \in Conns |-> IF conn[c].of = i THEN [conn[c] EXCEPT !.open = FALSE] ELSE conn[c]]
+                /\ trace' = Append(trace, [a |-> how, i |-> i])
+                /\ UNCHANGED data
 LNext == /\ Len(trace) < MaxSteps
-         /\ \/ \E i \in Insts : Start(i) \/ Close(i)
-            \/ \E c \in Conns, a \in Acts : Connect(c, a)
+         /\ \/ \E i \in Insts : (\E p \in Ports : Start(i, p)) \/ Stop(i, "close") \/ Stop(i, "quit")
+            \/ \E c \in Conns, a \in Acts, p \in Ports : Connect(c, a, p)
 LSpec == LInit /\ [][LNext]_lvars
 
 \* no client of a closed instance can still talk to it
 ClosedMeansDisconnected == \A c \in Conns : (conn[c].of # 0 /\ inst[conn[c].of] = "closed") => ~conn[c].open
 \* the port belongs to at most one running instance, and is free when nobody runs
-PortConsistent == (port # 0 => inst[port] = "running") /\ ((\A i \in Insts : inst[i] # "running") => port = 0)
+PortConsistent == /\ \A p \in Ports : port[p] # 0 => inst[port[p]] = "running"
+                  /\ \A p, q \in Ports : (p # q /\ port[p] # 0) => port[p] # port[q]
+                  /\ (\A i \in Insts : inst[i] # "running") => \A p \in Ports : port[p] = 0
+\* stopping an instance leaves the connections of the other instances alone
+StopIsLocal == [][\A c \in Conns : (conn[c].open /\ ~conn'[c].open) => inst'[conn[c].of] = "closed"]_lvars
 \* a successor on the same port starts empty: an instance only ever holds keys written by its own clients
 NoSharedData == \A i \in Insts : \A c \in data[i] : conn[c].of = i
 \* scenarios worth replaying: at least one close with a connection open at that moment, or a restart
-Interesting == \E k \in 1..Len(trace) : trace[k].a = "close"
-LEmit == (Len(trace') = MaxSteps /\ \E k \in 1..Len(trace') : trace'[k].a = "close") => PrintT(ToJson([life |-> trace']))
+LEmit == (Len(trace') = MaxSteps /\ \E k \in 1..Len(trace') : trace'[k].a \in {"close", "quit"}) => PrintT(ToJson([life |-> trace']))
 =============================================================================
